@@ -106,9 +106,9 @@ theorem canonList_normalKids (t : Tree) : canon.canonList t.kids = canon.canonLi
   simpa using this
 
 /-- … which on well-ordered children are all normal nodes. -/
-theorem normalKids_normal {v : Value} {ks : List Tree} (h : kidsOrdered ks = true) :
+theorem normalKids_normal {v : Value} {ks : List Tree} (h : orderedKids ks = true) :
     ∀ k ∈ (Tree.node v ks).normalKids, k.value.isNormal = true := by
-  unfold kidsOrdered at h
+  unfold orderedKids at h
   simp only [Tree.normalKids, Tree.kids]
   have e1 : ks = ks.takeWhile (fun k => k.value.category == .namespace) ++
       ks.dropWhile (fun k => k.value.category == .namespace) := (List.takeWhile_append_dropWhile).symm
